@@ -24,6 +24,8 @@ func main() {
 		genC15(*out, *tier, *seed)
 	case "C07":
 		genC07(*out, *tier, *seed)
+	case "C08":
+		genC08(*out, *tier, *seed)
 	case "C14":
 		genC14(*out, *tier, *seed)
 	default:
